@@ -43,11 +43,32 @@ def sources(tier, seed, ctx):
         r = random.Random(seed * 61 + n)
         outs = gen.pick_outputs(r, ni, len(gs), kind=['last', 'some', 'dup', 'withinput', 'many', 'none'][n % 6])
         srcs.append({'k': 'rt' if n % 2 == 0 else 'doc', 'net': [ni, gs], 'outs': outs, 'ls': r.randrange(10**6)})
+    # every line order (TLC-enumerated permutations, Perms.tla) of fixed small documents
+    import json as _json
+    import os as _os
+    from .. import tlc as _tlc
+    nperm = 0
+    for K in ((3, 4, 5) if tier == 'quick' else (3, 4, 5, 6)):
+        wd = _tlc.workdir(f'C11-perm{K}')
+        cfg = _os.path.join(wd, 'p.cfg')
+        with open(cfg, 'w') as f:
+            f.write(f'SPECIFICATION Spec\nINVARIANT Emit\nCHECK_DEADLOCK FALSE\nCONSTANTS\n K = {K}\n')
+        res = _tlc.run_model('Perms', cfg, workers=1, tag=f'C11-perm{K}-run', xmx='2g')
+        perms = [_json.loads(_json.loads(ln)) for ln in res['stdout'].split('\n') if ln.startswith('"[')]
+        _tlc.cleanup(wd)
+        _tlc.cleanup(res['workdir'])
+        ctx['gen_states'] += res['distinct']
+        ctx['gen_transitions'] += res['generated']
+        bases = [n for n in nets if 0 < n[0] + len(n[1]) + 1 == K][:12 if K < 6 else 4]
+        for b, net in enumerate(bases):
+            for perm in perms:
+                srcs.append({'k': 'doc', 'net': [net[0], net[1]], 'outs': [net[0] + len(net[1])], 'ls': b * 131 + K, 'perm': perm})
+                nperm += 1
     nrand = 500 if tier == 'quick' else 8000
     for j in range(nrand):
         net = gen.random_netlist(rng, ni=rng.randint(1, 5), ng=rng.randint(1, 15), amax=5)
         srcs.append({'k': rng.choice(['rt', 'doc']), 'net': [net[0], net[1]], 'outs': gen.pick_outputs(rng, net[0], len(net[1])), 'ls': rng.randrange(10**6)})
-    ctx['gen_note'] = f'U(2,2,all18,3)={len(nets)}, {min(take, len(nets))} replayed + {nrand} random'
+    ctx['gen_note'] = f'U(2,2,all18,3)={len(nets)}, {min(take, len(nets))} replayed + {nrand} random + {nperm} documents = every line order (TLC-enumerated permutations) of small fixed netlists'
     return srcs
 
 
@@ -145,7 +166,10 @@ def record(src):
             doc.append({'k': 'gate', 'l': l, 't': tok, 'ops': list(ops)})
     for o in outs:
         doc.append({'k': 'out', 'l': o})
-    r.shuffle(doc)
+    if src.get('perm'):
+        doc = [doc[j - 1] for j in src['perm']]
+    else:
+        r.shuffle(doc)
     for _ in range(r.randint(0, 3)):
         doc.insert(r.randint(0, len(doc)), {'k': r.choice(['comment', 'blank'])})
     text = render(doc, r)
